@@ -1,4 +1,5 @@
 import CovfieModel.Model.Stack
+import CovfieModel.Model.StackConv
 /-! # C02 — A stack's lookup is the composition of its layers' maps; a layer never depends on what lies beneath -/
 namespace Covfie.C02
 
@@ -111,4 +112,241 @@ def exStack : Stack := .clamp (.shuffle [1, 0] (.strided 64 .array))
 def exData : Data := .box [.fin 0, .fin 0] [.fin 1, .fin 2]
   (.thin (.sized [3, 2] (.array ((List.range 6).map fun (i : Nat) => [Num.fin (i : Rat), Num.fin ((10 * i : Nat) : Rat), Num.fin ((100 * i : Nat) : Rat)]))))
 #guard (eval (fun x => .ok x) exStack exData [.fin 7, .fin 2]) matches .ok ([.fin 5, .fin 50, .fin 500], [5])
+end Covfie.C02
+
+/-! ## One conversion per cast layer (what the correspondence driver evaluates) -/
+namespace Covfie.C02
+
+/-- threading one conversion per cast layer specialises to `eval` when all conversions are the same -/
+theorem evalN_const (cv : Conv) (s : Stack) : ∀ (k : Nat) (d : Data), evalN (fun _ => cv) k s d = eval cv s d := by
+  induction s with
+  | array => intro k d; cases d <;> rfl
+  | constant => intro k d; cases d <;> rfl
+  | identity => intro k d; cases d <;> rfl
+  | strided w b ih => intro k d; cases d <;> simp [evalN, eval, ih]
+  | mortonT b ih => intro k d; cases d <;> simp [evalN, eval, ih]
+  | mortonF b ih => intro k d; cases d <;> simp [evalN, eval, ih]
+  | hilbert b ih => intro k d; cases d <;> simp [evalN, eval, ih]
+  | clamp b ih => intro k d; cases d <;> simp [evalN, eval, ih]
+  | backup b ih => intro k d; cases d <;> simp [evalN, eval, ih]
+  | affine b ih => intro k d; cases d <;> simp [evalN, eval, ih]
+  | shuffle p b ih => intro k d; cases d <;> simp [evalN, eval, ih]
+  | cast b ih => intro k d; cases d <;> simp [evalN, eval, ih]
+  | deref b ih => intro k d; cases d <;> simp [evalN, eval, ih]
+  | nn b ih => intro k d; cases d <;> simp [evalN, eval, ih]
+  | linear b ih => intro k d; cases d <;> simp [evalN, eval, ih]
+
+/-- each cast layer converts with its own conversion, whatever lies beneath -/
+theorem evalN_cast (cv : Nat → Conv) (k : Nat) (b : Stack) (d : Data) :
+    evalN cv k (.cast b) (.thin d) = castL (cv k) (evalN cv (k + 1) b d) := rfl
+
+end Covfie.C02
+
+/-! ## Kind soundness, dimensional part: N inputs, M outputs, independently -/
+namespace Covfie.C02
+
+/-- dimensions of a stack over its data: `N` input components, `M` output components (the dimensional part of the
+    kind rules: a storage order feeds one flat index to what lies beneath, boxes have `N` components, a default has `M`) -/
+def Dims : Stack → Data → Nat → Nat → Prop
+  | .array, .array cells, N, M => N = 1 ∧ ∀ v ∈ cells, v.length = M
+  | .constant, .constant v, _, M => v.length = M
+  | .identity, .identity, N, M => N = M
+  | .strided _ b, .sized _ d, _, M => Dims b d 1 M
+  | .mortonT b, .sized _ d, _, M => Dims b d 1 M
+  | .mortonF b, .sized _ d, _, M => Dims b d 1 M
+  | .hilbert b, .sized _ d, _, M => Dims b d 1 M
+  | .clamp b, .box lo hi d, N, M => lo.length = N ∧ hi.length = N ∧ Dims b d N M
+  | .backup b, .boxd _ _ df d, N, M => df.length = M ∧ Dims b d N M
+  | .affine b, .aff m d, N, M => m.length = N ∧ Dims b d N M
+  | .shuffle p b, .thin d, N, M => p.length = N ∧ Dims b d N M
+  | .cast b, .thin d, N, M => Dims b d N M
+  | .deref b, .thin d, N, M => Dims b d N M
+  | .nn b, .thin d, N, M => Dims b d N M
+  | .linear b, .thin d, N, M => Dims b d N M
+  | _, _, _, _ => False
+
+theorem zip3With_length {α β γ δ} (f : α → β → γ → δ) (as : List α) (bs : List β) (cs : List γ) (n : Nat)
+    (ha : as.length = n) (hb : bs.length = n) (hc : cs.length = n) : (zip3With f as bs cs).length = n := by
+  induction as generalizing bs cs n with
+  | nil => simp at ha; subst ha; rfl
+  | cons a as ih =>
+    cases bs with
+    | nil => simp at hb ha; omega
+    | cons b bs =>
+      cases cs with
+      | nil => simp at hc ha; omega
+      | cons c cs =>
+        cases n with
+        | zero => simp at ha
+        | succ n => simp [zip3With]; exact ih bs cs n (by simpa using ha) (by simpa using hb) (by simpa using hc)
+
+theorem corners_length (n : Nat) : ∀ bs ∈ corners n, bs.length = n := by
+  induction n with
+  | zero => intro bs h; simp [corners] at h; subst h; rfl
+  | succ n ih =>
+    intro bs h
+    simp only [corners, List.mem_flatMap] at h
+    obtain ⟨b, hb, h⟩ := h
+    simp at h
+    rcases h with rfl | rfl <;> simp [ih b hb]
+
+theorem corners_ne_nil (n : Nat) : corners n ≠ [] := by
+  induction n with
+  | zero => simp [corners]
+  | succ n ih =>
+    cases h : corners n with
+    | nil => exact absurd h ih
+    | cons a as => simp [corners, h]
+
+theorem addBits_length (is : List Nat) (bs : List Bool) (n : Nat) (h1 : is.length = n) (h2 : bs.length = n) :
+    (addBits is bs).length = n := by
+  simp [addBits, h1, h2]
+
+theorem mapE_mem {α β ε} (f : α → Except ε β) (l : List α) (r : List β) (h : mapE f l = .ok r) :
+    ∀ b ∈ r, ∃ a ∈ l, f a = .ok b := by
+  induction l generalizing r with
+  | nil => simp [mapE] at h; subst h; simp
+  | cons a as ih =>
+    simp only [mapE] at h
+    cases hf : f a with
+    | error e => simp [hf] at h
+    | ok b0 =>
+      cases hm : mapE f as with
+      | error e => simp [hf, hm] at h
+      | ok bs =>
+        simp [hf, hm] at h; subst h
+        intro b hb
+        simp at hb
+        rcases hb with rfl | hb
+        · exact ⟨a, List.mem_cons_self, hf⟩
+        · obtain ⟨a', ha', hfa'⟩ := ih bs hm b hb
+          exact ⟨a', List.mem_cons_of_mem _ ha', hfa'⟩
+
+/-- kind soundness, dimensional part: a successful lookup with `N` coordinate components returns `M` value components,
+    for every `N` and `M` independently -/
+theorem eval_length (cv : Conv) (s : Stack) : ∀ (d : Data) (N M : Nat) (c v : List Num) (t : List Nat),
+    Dims s d N M → c.length = N → eval cv s d c = .ok (v, t) → v.length = M := by
+  induction s with
+  | array =>
+    intro d N M c v t hd hc h
+    cases d <;> simp only [Dims] at hd
+    rename_i cells
+    simp only [eval, arrayB] at h
+    split at h <;> try (simp at h)
+    rename_i q
+    split at h <;> try (simp at h)
+    split at h <;> try (simp at h)
+    rename_i v' hv'
+    obtain ⟨rfl, _⟩ := h
+    exact hd.2 _ (List.mem_of_getElem? hv')
+  | constant =>
+    intro d N M c v t hd hc h
+    cases d <;> simp only [Dims] at hd
+    simp [eval, constantB] at h
+    obtain ⟨rfl, _⟩ := h; exact hd
+  | identity =>
+    intro d N M c v t hd hc h
+    cases d <;> simp only [Dims] at hd
+    simp [eval, identityB] at h
+    obtain ⟨rfl, _⟩ := h; omega
+  | strided w b ih =>
+    intro d N M c v t hd hc h
+    cases d <;> simp only [Dims] at hd
+    simp only [eval, layoutL] at h
+    split at h <;> try (simp at h)
+    exact ih _ 1 M _ v t hd rfl h
+  | mortonT b ih =>
+    intro d N M c v t hd hc h
+    cases d <;> simp only [Dims] at hd
+    simp only [eval, layoutL] at h
+    split at h <;> try (simp at h)
+    exact ih _ 1 M _ v t hd rfl h
+  | mortonF b ih =>
+    intro d N M c v t hd hc h
+    cases d <;> simp only [Dims] at hd
+    simp only [eval, layoutL] at h
+    split at h <;> try (simp at h)
+    exact ih _ 1 M _ v t hd rfl h
+  | hilbert b ih =>
+    intro d N M c v t hd hc h
+    cases d <;> simp only [Dims] at hd
+    simp only [eval, layoutL] at h
+    split at h <;> try (simp at h)
+    exact ih _ 1 M _ v t hd rfl h
+  | clamp b ih =>
+    intro d N M c v t hd hc h
+    cases d <;> simp only [Dims] at hd
+    simp only [eval, clampL] at h
+    exact ih _ N M _ v t hd.2.2 (zip3With_length _ _ _ _ N hd.1 hd.2.1 hc) h
+  | backup b ih =>
+    intro d N M c v t hd hc h
+    cases d <;> simp only [Dims] at hd
+    simp only [eval, backupL] at h
+    split at h
+    · simp at h; obtain ⟨rfl, _⟩ := h; exact hd.1
+    · exact ih _ N M c v t hd.2 hc h
+  | affine b ih =>
+    intro d N M c v t hd hc h
+    cases d <;> simp only [Dims] at hd
+    simp only [eval, affineL] at h
+    split at h <;> try (simp at h)
+    exact ih _ N M _ v t hd.2 (by simp [hd.1]) h
+  | shuffle p b ih =>
+    intro d N M c v t hd hc h
+    cases d <;> simp only [Dims] at hd
+    simp only [eval, shuffleL] at h
+    exact ih _ N M _ v t hd.2 (by simp [hd.1]) h
+  | cast b ih =>
+    intro d N M c v t hd hc h
+    cases d <;> simp only [Dims] at hd
+    rename_i d
+    have h' : castL cv (eval cv b d) c = .ok (v, t) := h
+    cases hb : eval cv b d c with
+    | error e => simp [castL, hb] at h'
+    | ok r =>
+      obtain ⟨v0, t0⟩ := r
+      obtain ⟨hl, _⟩ := cast_length cv _ c v0 v t0 t hb h'
+      rw [hl]; exact ih _ N M c v0 t0 hd hc hb
+  | deref b ih =>
+    intro d N M c v t hd hc h
+    cases d <;> simp only [Dims] at hd
+    simp only [eval, derefL] at h
+    exact ih _ N M c v t hd hc h
+  | nn b ih =>
+    intro d N M c v t hd hc h
+    cases d <;> simp only [Dims] at hd
+    simp only [eval, nnL] at h
+    split at h <;> try (simp at h)
+    rename_i nc hnc
+    exact ih _ N M nc v t hd (by rw [mapE_length _ _ _ hnc]; exact hc) h
+  | linear b ih =>
+    intro d N M c v t hd hc h
+    cases d <;> simp only [Dims] at hd
+    rename_i d
+    simp only [eval, linearL] at h
+    split at h <;> try (simp at h)
+    rename_i parts hparts
+    split at h <;> try (simp at h)
+    rename_i rs hrs
+    obtain ⟨rfl, _⟩ := h
+    simp only [List.length_map, List.length_range]
+    -- the first corner query succeeded with `M` components
+    have hlen : rs.length = (corners c.length).length := mapE_length _ _ _ hrs
+    cases hrs' : rs with
+    | nil =>
+      rw [hrs'] at hlen
+      exact absurd (List.eq_nil_of_length_eq_zero hlen.symm) (corners_ne_nil _)
+    | cons r0 rest =>
+      simp only [List.head?_cons, Option.map_some, Option.getD_some]
+      obtain ⟨bs, hbs, hq⟩ := mapE_mem _ _ _ hrs r0 (by rw [hrs']; exact List.mem_cons_self)
+      simp only [cornerQuery] at hq
+      split at hq <;> try (simp at hq)
+      rename_i r hr
+      subst hq
+      obtain ⟨v0, t0⟩ := r
+      refine ih d N M _ v0 t0 hd ?_ hr
+      apply addBits_length
+      · simp [mapE_length _ _ _ hparts, hc]
+      · rw [corners_length _ bs hbs]; exact hc
+
 end Covfie.C02
